@@ -19,5 +19,18 @@ let handle cmd args : string option =
        Some (Printf.sprintf "%d %d %d%s" (iz g.g_nu) (iz g.g_nv) (iz g.g_nw)
                (String.concat "" (List.map (fun (i, s, sg, k) -> Printf.sprintf " %d:%d:%d:%d" i s sg k) items)))
      | _ -> Some "EXC")
+  | "alook", nu :: nv :: nw :: half :: rest ->
+    (* prepare_asu_data on a P 1 grid nu x nv x nw (nw = planes stored): for each listed hkl the slot read and the
+       conjugation flag, "-" when the reflection is not listed (outside the ASU or the index range) *)
+    let g = { g_nu = zi nu; g_nv = zi nv; g_nw = zi nw; g_half = (half <> 0); g_zyx = false } in
+    let a = row_asu table.(0) false in
+    let maxh = (nu - 1) / 2 and maxk = (nv - 1) / 2 and maxl = if half <> 0 then nw - 1 else (nw - 1) / 2 in
+    let rec go = function
+      | h :: k :: l :: t ->
+        let hkl = ((zi h, zi k), zi l) in
+        let listed = abs h <= maxh && abs k <= maxk && abs l <= maxl && asu_is_in a hkl && (l >= 0 || half <> 0) in
+        (if listed then let (i, c) = asu_lookup g hkl in Printf.sprintf "%d:%d" (iz i) (if c then 1 else 0) else "-") :: go t
+      | _ -> [] in
+    Some (String.concat " " (go rest))
   | _ -> None
 let () = serve handle
